@@ -136,3 +136,27 @@ Proof.
   unfold ttl_due in H2. apply andb_true_iff in H2. destruct H2 as [H2 H3].
   apply negb_true_iff in H2. auto.
 Qed.
+
+(* the periodic job (addJob): one period later the pass runs with the defaulted configuration *)
+Theorem job_exact : forall c0 t0 ops c dt u scan order m,
+  let s := fst (run (init c0 t0) ops) in
+  let d := apply_defaults c in
+  let s1 := mkst (dk s) (fm s) (now s + dt) (cap s) in
+  roomy (cap s) (dk s) = true -> NoDup scan -> c_interval d <= dt -> should_aggro d u = false ->
+  aget m (dk (fst (step s (Job c false dt u scan order)))) = ttl_after (c_tti d) (c_ttl d) scan s1 m.
+Proof.
+  intros c0 t0 ops c dt u scan order m s d s1 R ND Hdt Ag. cbn [step].
+  unfold job_fires. cbn [negb andb]. fold d. apply Z.leb_le in Hdt. rewrite Hdt. fold s1.
+  assert (W : wf s1) by (apply (run_wf ops (init c0 t0)); apply wf_init).
+  unfold cleanup. rewrite Ag. cbn [andb fst]. apply ttl_pass_exact; auto.
+  apply roomy_iff in R. exact R.
+Qed.
+
+Theorem job_not_started : forall s c dis dt u scan order,
+  dis = true \/ dt < c_interval (apply_defaults c) ->
+  dk (fst (step s (Job c dis dt u scan order))) = dk s.
+Proof.
+  intros s c dis dt u scan order H. cbn [step]. unfold job_fires.
+  destruct H as [->|H]; cbn [negb andb fst dk]; auto.
+  apply Z.leb_gt in H. rewrite H, andb_false_r. reflexivity.
+Qed.
